@@ -56,6 +56,19 @@ func (e *c16env) fn(id string) func(time.Time) error {
 	}
 }
 
+// addAs is add with a callback that records under another name (to tell a
+// replacement from what it replaces).
+func (e *c16env) addAs(id, schedule, tag string) {
+	e.adds[id] = append(e.adds[id], e.since())
+	slot := len(e.adds[id]) - 1
+	e.addRet[id] = append(e.addRet[id], -1)
+	if err := e.c.Add(e.ctx, id, schedule, e.fn(tag)); err != nil {
+		panic(err)
+	}
+	e.addAt[id] = e.since()
+	e.addRet[id][slot] = e.since()
+}
+
 func (e *c16env) add(id, schedule string) {
 	e.adds[id] = append(e.adds[id], e.since())
 	slot := len(e.adds[id]) - 1
@@ -192,11 +205,17 @@ func c16Scns() []c16scn {
 				bad = append(bad, "recurring-job-never-fired:j1 never fired in 2.2s")
 			}
 			persec := map[int]int{}
+			after := 0
 			for _, t := range ts {
 				persec[int(t/time.Second)]++
 				if t > e.remAt["j1"] {
-					bad = append(bad, fmt.Sprintf("removed-recurring-job-fired-again:j1 fired at +%v after Rem returned at +%v", t, e.remAt["j1"]))
+					after++
 				}
+			}
+			// one occurrence may have been dispatched before Rem returned and run its
+			// (delayed) callback afterwards; a second one was scheduled after the removal
+			if after > 1 {
+				bad = append(bad, fmt.Sprintf("removed-recurring-job-fired-again:j1 fired %d times after Rem returned at +%v (at most the one occurrence already in flight may) %v", after, e.remAt["j1"], ts))
 			}
 			for s, k := range persec {
 				if k > 1 {
@@ -223,7 +242,7 @@ func c16Scns() []c16scn {
 			func(e *c16env) {
 				e.add("j1", "* * * * * * *")
 				vtime.Sleep(1500 * time.Millisecond)
-				e.add("j1", "+300ms")
+				e.addAs("j1", "+300ms", "j1-replacement")
 			},
 		}, func(e *c16env) []string {
 			var bad []string
@@ -234,8 +253,12 @@ func c16Scns() []c16scn {
 					late++
 				}
 			}
-			if late != 1 {
-				bad = append(bad, fmt.Sprintf("replaced-recurring-job-keeps-firing:after being replaced by a one-shot at +%v, j1 fired %d times %v", e.addAt["j1"], late, ts))
+			// the occurrence already in flight when the replace returned may still run
+			if late > 1 {
+				bad = append(bad, fmt.Sprintf("replaced-recurring-job-keeps-firing:after being replaced by a one-shot at +%v, the recurring j1 fired %d more times %v", e.addAt["j1"], late, ts))
+			}
+			if n, rs := countFires(e, "j1-replacement"); n != 1 {
+				bad = append(bad, fmt.Sprintf("replacement-one-shot-fired-%d-times:the one-shot that replaced j1 fired %d times %v (recurring: %v)", n, n, rs, ts))
 			}
 			return bad
 		}},
